@@ -9,7 +9,7 @@ K = dict(SEED=1, LOSS=2, DUP=3, DELAY_MIN=4, DELAY_MAX=5, NBIDI=9, NUNI=10, STRE
          READ_MAX=13, READ_MODE=14, NDGRAM=15, DGRAM_SIZE=16, ECHO_BYTES=17, CANCEL=18, END_MODE=19, IDLE_MS=20,
          SEND_WINDOW=24, STREAM_RWND=25, RWND=26, MAX_BIDI=27, MAX_UNI=28, NACCEPTORS=30, WRITE_MODE=31,
          STOPPED_WAIT=32, HANG_OPS=33, SEND_BLOCK=34, DGRAM_SEND_BUF=35, READ_DELAY_US=36, STOP_AT=37,
-         RESET_AT=38, SPURIOUS=39, CLOSE_AT_US=40, IOERR_AFTER=41, MAX_TIME=52, KNOWN=902)
+         RESET_AT=38, SPURIOUS=39, CLOSE_AT_US=40, IOERR_AFTER=41, IMPLICIT_FINISH=42, STOP_BY_DROP=43, MAX_TIME=52, KNOWN=902)
 KN = {v: k for k, v in K.items()}
 TAGS = {10, 20, 21, 22, 23, 24, 25, 26, 27, 28, 29, 30, 32, 33, 36, 37, 39, 40}
 RULE = ("scripted client/server applications over one connection of the real quinn crate: uni/bidi streams with "
@@ -58,6 +58,8 @@ def gen(rng, n):
             d["SPURIOUS"] = rng.choice([20, 100, 300])
         if rng.chance(1, 4):
             d["SEND_BLOCK"] = rng.choice([50, 300])
+        if rng.chance(1, 4):
+            d["IMPLICIT_FINISH"] = 1
         m = rng.below(8)
         if m == 1:      # blocked writers: small windows, slow readers
             d["STREAM_RWND"] = rng.choice([1, 100, 1500, 6000])
@@ -86,6 +88,9 @@ def gen(rng, n):
             d["NUNI"] = max(1, d["NUNI"])
             if rng.chance(1, 2):
                 d["STOP_AT"] = rng.choice([0, 1, 1000])
+                d["STOP_BY_DROP"] = rng.below(2)
+                if rng.chance(1, 2):
+                    d["STREAM_RWND"] = 1500
             else:
                 d["RESET_AT"] = rng.choice([0, 1000])
                 d["STOPPED_WAIT"] = rng.choice([0, 1])
